@@ -33,7 +33,7 @@ def dump (m : Manager) : String :=
   let ids := (sortDedup m.locators).foldl (fun acc x => acc ++ s!" {x}") ""
   s!"max {m.cacheP.maxTS} {m.cacheN.maxTS} cached {m.cacheP.lists.length} {m.cacheN.lists.length} loc{ids}"
 
-def step (s : State) (toks : List String) : State × String :=
+def stepS (s : State) (toks : List String) : State × String :=
   match toks with
   | ["reset"] => (State.init, "ok")
   | ["root", g, ts, th] =>
@@ -84,5 +84,34 @@ def step (s : State) (toks : List String) : State × String :=
     | _, _, _ => (s, "bad-op")
   | _ => (s, "bad-op")
 
+/-- driver state: the model state and the number of handles given out before the last restart
+    (handles keep counting across restarts; trackers of an earlier manager are dead) -/
+structure DState where
+  s : State := State.init
+  offset : Nat := 0
+
+def rel (d : DState) (h : String) : Option String :=
+  match h.toNat? with
+  | some n => if n < d.offset then none else some (toString (n - d.offset))
+  | none => some h
+
+def step (d : DState) (toks : List String) : DState × String :=
+  match toks with
+  | ["reset"] => ({}, "ok")
+  | ["restart"] => ({ s := d.s.restart, offset := d.offset + d.s.trackers.length }, "ok")
+  | op :: h :: rest =>
+    if op == "new" || op == "add" || op == "commit" || op == "has" then
+      match rel d h with
+      | none => (d, "bad-op")
+      | some h' =>
+        let r := stepS d.s (op :: h' :: rest)
+        ({ d with s := r.1 }, r.2)
+    else
+      let r := stepS d.s toks
+      ({ d with s := r.1 }, r.2)
+  | _ =>
+    let r := stepS d.s toks
+    ({ d with s := r.1 }, r.2)
+
 end Goloop.Driver.C11
-def main : IO Unit := Goloop.Proto.run Goloop.Driver.C11.step Goloop.C11.State.init
+def main : IO Unit := Goloop.Proto.run Goloop.Driver.C11.step {}
